@@ -191,5 +191,5 @@ fn manager(input: &[V]) -> Vec<V> {
 }
 
 fn main() {
-    main_with(&[("loss", loss), ("rtt", rtt), ("pto", pto), ("pc", pc), ("manager", manager)]);
+    main_with(&[("loss", loss), ("rtt", rtt), ("pto", pto), ("pc", pc), ("manager", manager), ("manager_acks", manager)]);
 }
